@@ -70,10 +70,28 @@ def gen_cases(seed, chunk, n, tier):
         static = rng.random() < 0.7
         dtype = rng.choice(ser.DTYPES)
         keep = rng.choice([0.3, 0.6, 1.0])
-        kind = rng.choice(["tensordot"] * 6 + ["matmul", "trace", "einsum", "noalign"])
+        kind = rng.choice(["tensordot"] * 12 + ["matmul", "trace", "einsum", "noalign"] * 2 + ["malformed"])
         meta = dict(sym=sym, static=static, dtype=dtype, kind=kind)
         orc = None
         nontrivial = False
+        if kind == "malformed":
+            # calls the library documents as errors: both sides must reject them
+            a = gen.rand_array(rng, sym, ndim=3, static=static, dtype=dtype, keep=keep)
+            b = gen.rand_array(rng, sym, ndim=2, static=static, dtype=dtype, keep=keep)
+            which = rng.choice(["axes_len", "matmul3d", "trace3d"])
+            if which == "axes_len":
+                steps = [{"out": ["c"], "op": "tensordot", "in": ["a", "b"], "params": {"axes": [[0, 1], [0]]}}]
+            elif which == "matmul3d":
+                steps = [{"out": ["c"], "op": "matmul", "in": ["a", "b"], "params": {}}]
+            else:
+                steps = [{"out": ["c"], "op": "trace", "in": ["a"], "params": {}}]
+            env = {"a": a, "b": b}
+            res, env2 = impl.run_prog(env, steps)
+            orc = None if "raise" in res[0] else f"malformed call ({which}) was accepted"
+            meta.update(which=which)
+            out.append(dict(case=_mk_case(env, steps), impl=stream.strip_py(res), oracle=orc, meta=meta,
+                            nontrivial=False, op=kind, triggers=[]))
+            continue
         if kind in ("tensordot", "noalign"):
             a, b, xa, xb = gen.rand_contractible(rng, sym, static=static, dtype=dtype, keep=keep)
             if kind == "noalign" and xa and a.blocks and b.blocks:
@@ -99,6 +117,8 @@ def gen_cases(seed, chunk, n, tier):
             p = {"axes": axes}
             if mode is not None:
                 p["mode"] = mode
+                if rng.random() < 0.2:
+                    p["via_default"] = True
             steps = [{"out": ["c"], "op": "tensordot", "in": ["a", "b"], "params": p}]
             env = {"a": a, "b": b}
             res, env2 = impl.run_prog(env, steps, entry=entry)
